@@ -15,6 +15,20 @@ CHECKS = {
         "Trusted: the reference model in verif/models/lifecycle.py (27 edges cross-checked with the documented SVG at start-up); unreachable (status, owner) pairs are installed white-box; requester 'none' uses the base-class _atomic_status_transition contract.",
         "DESIGN.md 3 C01, A.1",
     ),
+    "C08": (
+        "exploration",
+        "Hypothesis stateful machine vs deque model on both brokers + deterministic-scheduler interleavings (bounded-preemption DFS for 2 actors, PCT for 3) at SQL-statement / source-line granularity",
+        "Sequential histories of route / batch route / retrieve / count / purge (up to 200 steps) are compared step by step with a deque model on MemBroker and SQLiteBroker; concurrent retrievers and routers run as actors of a schedule-owning scheduler: every schedule with <= 1 forced switch (thorough <= 2) for two actors, PCT for three, judged by multiset conservation, per-retriever order and no spurious empty result.",
+        "Trusted: deque model; scheduler yields only at SQL statements/commits (SQLite) and at source lines of mem_broker.py (Mem); SQLite 'database is locked' is modelled as parking the actor until the next commit/rollback.",
+        "DESIGN.md 3 C08, 2.1, A.6",
+    ),
+    "C12": (
+        "exploration",
+        "exhaustive grid + boundary enumeration of can_run_atomic_service against an exact rational model, Hypothesis float search, integration slice on both orchestrators under a virtual clock",
+        "For every configuration of a finite family (N 1..8/16 x 6 cycle lengths x 6 margins x 3 epoch offsets) all runners are asked at the same instant on a dense grid and at every window boundary +-{0, 1 ulp, 1 us}: at most one authorised, model agreement away from boundaries, non-empty windows, margin gaps empty; Hypothesis explores float configurations beyond the family; should_run_atomic_service is exercised on Mem and SQLite with a controlled clock and silent runners.",
+        "Trusted: rational window model derived from the statement (cycle and margin taken as the float products minutes*60); 1 us tolerance band at boundaries and at margin ~ slot (either regime accepted there).",
+        "DESIGN.md 3 C12, A.8",
+    ),
 }
 
 NOT_YET = "check not built yet in this session (work in progress, see DESIGN.md section 3)"
@@ -44,7 +58,7 @@ for p in props:
             "property_id": pid,
             "quick_cmd": f"./check {pid} --tier quick",
             "thorough_cmd": f"./check {pid} --tier thorough",
-            "evidence_file": f"evidence/{pid}.json",
+            "evidence_file": f"/verif/evidence/{pid}.json",
             "replay_cmd_template": f"./check {pid} --replay {{path}}",
             "engine": "check",
             "level_claimed": {"category": cat, "text": text, "design_ref": ref},
